@@ -273,10 +273,9 @@ def one_model(ctx, rng, k):
                     return
             if not recover_and_compare(ctx, folder, sig_f, "after-reader-writer", offset_class(n, L), case, calls=1):
                 return
-        # (a) crash inside save_model after n bytes
-        for n in offs:
-            if ctx.out_of_time():
-                break
+        # (a) crash inside save_model after n bytes and (c) damage of a complete file, interleaved per offset so that
+        # neither kind of fault is starved when the budget ends during a sweep over all offsets
+        def crash_at(n):
             clean_cache(folder)
             case = dict(base, fault="crash-during-write", offset=n)
             ctx.case({"t": text, "f": "crash", "n": n}, True, {"fault": "crash during cache write", "after_bytes": n, "cache_len": L} if ctx.cases < 1 else None)
@@ -295,13 +294,9 @@ def one_model(ctx, rng, k):
             ctx.cover("crash-offset:" + offset_class(n, L))
             left = [f_ for f_ in os.listdir(folder) if not f_.endswith(".mo")]
             ctx.cover("files-left-after-crash:%d" % len(left))
-            if not recover_and_compare(ctx, folder, sig_f, "crash-during-write", offset_class(n, L), case):
-                return
-        # (c) damage of a complete file
-        damages = [("truncated", n) for n in offs] + [("garbage", 0), ("garbage-tail", 0), ("text", 0)]
-        for kind, n in damages:
-            if ctx.out_of_time():
-                break
+            return recover_and_compare(ctx, folder, sig_f, "crash-during-write", offset_class(n, L), case)
+
+        def damage(kind, n):
             clean_cache(folder)
             if kind == "truncated":
                 data, cls = B[:n], offset_class(n, L)
@@ -317,7 +312,15 @@ def one_model(ctx, rng, k):
             ctx.monitor("truncations_injected")
             ctx.cover("damage:%s:%s" % (kind, cls))
             ctx.case({"t": text, "f": kind, "n": n}, True, None)
-            if not recover_and_compare(ctx, folder, sig_f, "damaged-file:" + kind, cls, dict(base, fault=kind, offset=n)):
+            return recover_and_compare(ctx, folder, sig_f, "damaged-file:" + kind, cls, dict(base, fault=kind, offset=n))
+
+        for kind in ("garbage", "garbage-tail", "text"):
+            if ctx.out_of_time() or not damage(kind, 0):
+                return
+        for n in offs:
+            if ctx.out_of_time():
+                break
+            if not crash_at(n) or not damage("truncated", n):
                 return
     finally:
         if real_compile is not None:
